@@ -218,16 +218,21 @@ struct Exec {
     finish(er, ec);
   }
   // ---- const query on two objects -----------------------------------------------------------
-  template <class TA, class TB, class F>
-  void query2(const std::string& name, int ai, const TA& a, int bi, const TB& b, F f) {
+  // `cp' makes the distinct copies of the run on copies (default: the copy constructor)
+  template <class TA, class TB, class F, class CA, class CB>
+  void query2c(const std::string& name, int ai, const TA& a, int bi, const TB& b, F f, CA cpa, CB cpb) {
     J.line(step_line("query", name, {}, {ai, bi}, ""));
     std::string er = "-", ec = "-", rr, rc;
-    { try { TA a2(a); TB b2(b); try { rc = f(const_cast<const TA&>(a2), const_cast<const TB&>(b2)); } catch (...) { ec = pplv::exc_class(); }
+    { try { TA a2(cpa(a)); TB b2(cpb(b)); try { rc = f(const_cast<const TA&>(a2), const_cast<const TB&>(b2)); } catch (...) { ec = pplv::exc_class(); }
         if (ec == "-") { J.line("carg " + std::to_string(ai) + val_str(a2)); J.line("carg " + std::to_string(bi) + val_str(b2)); } }
       catch (...) { ec = "copy:" + pplv::exc_class(); } }
     try { rr = f(a, b); } catch (...) { er = pplv::exc_class(); }
     if (er == "-" && ec == "-") J.line("qres 1 " + rr + " " + rc);
     finish(er, ec);
+  }
+  template <class TA, class TB, class F>
+  void query2(const std::string& name, int ai, const TA& a, int bi, const TB& b, F f) {
+    query2c(name, ai, a, bi, b, f, [](const TA& t) { return TA(t); }, [](const TB& t) { return TB(t); });
   }
   // ---- recycling entry point: the donor is left in an unspecified (but valid) state --------------
   template <class TX, class TD, class F>
@@ -663,7 +668,15 @@ template <class D> struct DomHist : Exec {
       /* fall through */
     default: {
       unsigned sel = r.below(8);
-      query2("relation_with(own constraint)", d, x, a, y, [sel](const D& x, const D& y) {
+      // Which constraint is the k-th depends on the representation, and powerset copies share their
+      // disjuncts: the run on copies works on deep copies here, so that it leaves the originals as
+      // the real run must find them.
+      auto deep = [](const D& t) {
+        if constexpr (is::pps) { D u(t.space_dimension(), EMPTY);
+          for (typename D::const_iterator i = t.begin(); i != t.end(); ++i) u.add_disjunct(i->pointset());
+          return u; }
+        else return D(t); };
+      query2c("relation_with(own constraint)", d, x, a, y, [sel](const D& x, const D& y) {
         OS o;
         if constexpr (is::pps) { if (y.begin() == y.end()) return std::string("none");
           const Constraint* c = kth(y.begin()->pointset().constraints(), sel); if (!c) return std::string("none");
@@ -672,7 +685,7 @@ template <class D> struct DomHist : Exec {
         } else { const auto& cs = y.constraints(); const Constraint* c = kth(cs, sel); if (!c) return std::string("none");
           Poly_Con_Relation rel = x.relation_with(*c);
           o << rel.implies(Poly_Con_Relation::is_disjoint()) << rel.implies(Poly_Con_Relation::is_included()) << rel.implies(Poly_Con_Relation::saturates()) << rel.implies(Poly_Con_Relation::strictly_intersects()); }
-        return o.str(); });
+        return o.str(); }, deep, deep);
       break; }
     }
   }
